@@ -100,8 +100,7 @@ fn check_layout(t: &mut Tally, scratch: &Path, id: usize, l: &Layout) {
     let root = scratch.join(format!("db{}", id));
     let _ = std::fs::remove_dir_all(&root);
     if materialise(&root, l).is_err() {
-        t.violation(Violation::new("layout", layout_json(l), json!("scratch tree"), json!("cannot create"), "harness: cannot build the scratch tree"));
-        return;
+        mc_core::run::machinery_fault("cannot build the scratch database");
     }
     // expected: complete directories, each once
     let mut want: BTreeMap<String, (String, String, u8, bool)> = BTreeMap::new();
@@ -174,6 +173,89 @@ fn check_layout(t: &mut Tally, scratch: &Path, id: usize, l: &Layout) {
 /// A database of complete package directories with arbitrary names (each containing a '-'),
 /// one incomplete directory and one stray file: every complete directory is listed once with
 /// pkgbase / pkgversion split at the last '-', and its +DESC reads back.
+/// Metadata file contents of several shapes, chosen by the name's position: the usual two lines,
+/// empty, one byte, no final newline, CR LF line ends, 8191 / 8192 / 8193 bytes, 1 MiB, non-ASCII.
+fn shaped_content(k: usize, dir: &str, file: &str) -> String {
+    match k % 10 {
+        0 => content(dir, file),
+        1 => String::new(),
+        2 => "x".to_string(),
+        3 => format!("{} of {} without a final newline", file, dir),
+        4 => format!("{} of {}\r\nsecond\r\n", file, dir),
+        5 => "c".repeat(8191),
+        6 => format!("{}\n", "d".repeat(8191)),
+        7 => "e".repeat(8193),
+        8 => format!("{} {}\n", file, "\u{e9}\u{65e5}\u{1f600}".repeat(40)),
+        _ => "m\n".repeat(512 * 1024),
+    }
+}
+
+/// A large database: `n` complete packages with numbered names and contents of every shape,
+/// every seventh directory incomplete, stray files in between.
+fn check_large(t: &mut Tally, scratch: &Path, n: usize) {
+    t.evals += 1;
+    t.validated += 1;
+    let case = || json!({"packages": n});
+    let root = scratch.join(format!("large{}", n));
+    let _ = std::fs::remove_dir_all(&root);
+    let name_of = |k: usize| format!("pkg{}-{}.{}nb{}", k, k % 11, k % 7, k % 5);
+    let built = (|| -> std::io::Result<()> {
+        std::fs::create_dir_all(&root)?;
+        for k in 0..n {
+            let d = root.join(name_of(k));
+            std::fs::create_dir_all(&d)?;
+            for (fi, f) in MANDATORY.iter().enumerate() {
+                if k % 7 == 3 && fi == k % 3 {
+                    continue; // incomplete
+                }
+                std::fs::write(d.join(f), shaped_content(k + fi, &name_of(k), f))?;
+            }
+            if k % 13 == 0 {
+                std::fs::write(root.join(format!("stray{}-1.0", k)), b"x")?;
+            }
+        }
+        Ok(())
+    })();
+    if built.is_err() {
+        let _ = std::fs::remove_dir_all(&root);
+        mc_core::run::machinery_fault("cannot build the scratch database");
+    }
+    let got = guard(|| {
+        let db = PkgDB::open(&root).map_err(|e| e.to_string())?;
+        let mut seen: Vec<(String, String, String, Vec<Result<String, String>>)> = vec![];
+        for p in db {
+            let p = p.map_err(|e| e.to_string())?;
+            let reads = [MetadataEntry::Comment, MetadataEntry::Contents, MetadataEntry::Desc].into_iter().map(|e| p.read_metadata(e).map_err(|e| e.kind().to_string())).collect();
+            seen.push((p.pkgname().clone(), p.pkgbase().clone(), p.pkgversion().clone(), reads));
+        }
+        seen.sort();
+        Ok::<_, String>(seen)
+    });
+    let _ = std::fs::remove_dir_all(&root);
+    let mut want: Vec<(String, String, String, Vec<Result<String, String>>)> = (0..n)
+        .filter(|k| k % 7 != 3)
+        .map(|k| {
+            let name = name_of(k);
+            let i = name.rfind('-').unwrap();
+            let reads = MANDATORY.iter().enumerate().map(|(fi, f)| Ok(shaped_content(k + fi, &name, f))).collect();
+            (name.clone(), name[..i].to_string(), name[i + 1..].to_string(), reads)
+        })
+        .collect();
+    want.sort();
+    match got {
+        Ok(Ok(seen)) if seen == want => {
+            t.nontrivial += 1;
+            t.outcome("large/all-listed-and-read");
+        }
+        Ok(Ok(seen)) => {
+            let first = seen.iter().zip(want.iter()).position(|(a, b)| a != b).unwrap_or(seen.len().min(want.len()));
+            let brief = |v: &Vec<(String, String, String, Vec<Result<String, String>>)>| v.get(first).map(|x| format!("{} / {} / {} / contents of {:?} bytes", x.0, x.1, x.2, x.3.iter().map(|r| r.as_ref().map(|s| s.len()).map_err(|e| e.clone())).collect::<Vec<_>>()));
+            t.violation(Violation::new("large", case(), json!({"packages": want.len(), "first_difference": brief(&want)}), json!({"packages": seen.len(), "first_difference": brief(&seen)}), "every complete directory once, correctly split, each '+FILE' read back whole whatever its size or line ends"));
+        }
+        other => t.violation(Violation::new("large", case(), json!(format!("{} packages", want.len())), json!(format!("{:?}", other.map(|r| r.map(|v| v.len())))), "iterating a large database failed")),
+    }
+}
+
 fn check_names(t: &mut Tally, scratch: &Path, id: usize, names: &[String]) {
     t.evals += 1;
     t.validated += 1;
@@ -292,6 +374,8 @@ fn tables(t: &mut Tally) {
                 t.validated += 1;
                 t.states += 1;
                 let want = a == 2 && b == 2 && c == 2;
+                // "non-empty": whether a blank-only text counts as empty is not decided by the statement
+                let open = [a, b, c].contains(&1) && ![a, b, c].iter().any(|x| *x == 0 || *x == 3);
                 let got = guard(|| {
                     let mut m = Metadata::new();
                     for (e, v) in [(2usize, vals[a]), (3, vals[b]), (5, vals[c])] {
@@ -301,7 +385,9 @@ fn tables(t: &mut Tally) {
                     }
                     m.is_valid().is_ok()
                 });
-                if got != Ok(want) {
+                if open && got.is_ok() {
+                    t.outcome("is_valid/blank-only-value (not constrained)");
+                } else if got != Ok(want) {
                     t.violation(Violation::new("valid", json!({"comment": vals[a], "contents": vals[b], "desc": vals[c]}), json!(want), json!(format!("{:?}", got)), "Metadata::is_valid holds exactly when comment, contents and description are all non-empty"));
                 } else {
                     t.outcome(if want { "is_valid/true" } else { "is_valid/false" });
@@ -328,6 +414,7 @@ fn replay(run: &Run, doc: &Value) -> Option<Violation> {
             let l = Layout { dirs, stray: c["stray"].as_u64().unwrap_or(0) as u8 };
             check_layout(&mut t, &run.scratch_dir(), 0, &l);
         }
+        Some("large") => check_large(&mut t, &run.scratch_dir(), c["packages"].as_u64().unwrap_or(1) as usize),
         Some("names") => {
             let names: Vec<String> = c["complete_directories"].as_array().map(|a| a.iter().filter_map(|x| x.as_str().map(|s| s.to_string())).collect()).unwrap_or_default();
             check_names(&mut t, &run.scratch_dir(), 0, &names);
@@ -358,7 +445,7 @@ fn main() {
          {unset, blank-only, text, empty}^3. Non-trivial = layouts with an incomplete directory or \
          stray files; every is_valid combination.",
     );
-    run.assume("plain files and directories only (no symlinks, no permission errors); directory iteration order is compared as a set");
+    run.assume("plain files, directories and dangling symbolic links among the strays; no permission errors (the harness runs as root); directory iteration order is compared as a set");
 
     let scratch = run.scratch_dir();
     let mut layouts: Vec<Layout> = vec![Layout { dirs: vec![], stray: 0 }, Layout { dirs: vec![], stray: 3 }];
@@ -397,9 +484,9 @@ fn main() {
             }
         }
     }
-    // scale: databases with many packages (every third one incomplete, strays in between)
-    for n in [9usize, 16, 17, 40] {
-        let dirs: Vec<(usize, u8, bool)> = (0..n.min(NAMES.len())).map(|k| (k, if k % 3 == 2 { (k % 7) as u8 } else { 7 }, k % 2 == 0)).collect();
+    // all twelve names at once (every third one incomplete, strays in between)
+    {
+        let dirs: Vec<(usize, u8, bool)> = (0..NAMES.len()).map(|k| (k, if k % 3 == 2 { (k % 7) as u8 } else { 7 }, k % 2 == 0)).collect();
         layouts.push(Layout { dirs, stray: 3 });
     }
     run.bound(format!("{} database layouts (<= 3 package directories, all subsets of the mandatory files); 14-entry table with all 1-edit near-misses; 64 is_valid combinations", layouts.len()));
@@ -425,6 +512,17 @@ fn main() {
             t.states += 1;
             t.transitions += names.len() as u64;
             check_names(t, &scratch, i, names);
+        });
+    }
+    // scale: databases of 9..1100 (thorough 2500) numbered packages with metadata files of every
+    // shape (empty, one byte, no final newline, CR LF, 8 KiB +-1, 1 MiB, non-ASCII)
+    {
+        let sizes: Vec<usize> = if run.thorough() { vec![9, 16, 17, 40, 300, 1100, 2500] } else { vec![9, 16, 17, 40, 300, 1100] };
+        run.bound(format!("scale: databases of {:?} numbered packages, every seventh incomplete, metadata contents of ten shapes (0 bytes .. 1 MiB)", sizes));
+        par_items(&run, "C20 large databases", &sizes, |_, n, t| {
+            t.states += 1;
+            t.transitions += *n as u64;
+            check_large(t, &scratch, *n);
         });
     }
     let mut t = Tally::new();
